@@ -76,7 +76,8 @@ OfferClauses(e) ==
      LET b == e.boards[k]
          d == e.decs[k]
          c == T!ContractOf(b, d.calls)
-         bad == IF T!PassedOutC(c) THEN {}
+         bad == IF ~T!A!Done(T!FinalAuction(b, d.calls)) THEN {}   \* board not reached / stopped in the auction
+                ELSE IF T!PassedOutC(c) THEN {}
                 ELSE {j \in 1..Len(d.offers) :
                         LET p == T!PlayAfter(T!InitPlayOf(b, c), d.cards, j - 1)
                             h == p.hands[d.cards[j].seat]
